@@ -31,9 +31,9 @@ fn docs(k: usize, f: impl Fn(&B)) {
 
 //@ props: C20
 //@ timeout: 900
-//@ harness: c20_delete_by_index, c20_array_insert, c20_keypath
-//@ desc: delete_by_index (on [], a scalar and {}), array_insert, get_by_keypath and delete_by_keypath (on []) with index/position arguments over the ENTIRE i32 range (including i32::MIN and i32::MAX) (documents on which a fully symbolic index leaves the output size concrete or nearly so): no arithmetic overflow (Kani checks every +,-,*,abs,neg with overflow checks on, i.e. dev-profile semantics), no panic; a result or an error comes back
-//@ fns: delete_by_index, delete_jsonb_by_index, array_insert, array_insert_jsonb, get_by_keypath, delete_by_keypath, delete_jsonb_array_by_keypath
+//@ harness: c20_delete_by_index, c20_array_insert
+//@ desc: delete_by_index (on [], a scalar and {}) and array_insert (on []) with index/position arguments over the ENTIRE i32 range (including i32::MIN and i32::MAX) (documents on which a fully symbolic index leaves the output size concrete or nearly so): no arithmetic overflow (Kani checks every +,-,*,abs,neg with overflow checks on, i.e. dev-profile semantics), no panic; a result or an error comes back
+//@ fns: delete_by_index, delete_jsonb_by_index, array_insert, array_insert_jsonb
 //@ bounds: documents of <= 1 element (the arithmetic under test happens before any element is touched); index arguments unbounded
 //@ stubs: parse_value, from_slice -> panic | drop_in_place -> no-op
 //@ outside: stack exhaustion on deep nesting (no stack model in CBMC) | arithmetic inside the JSON-text branches
@@ -54,18 +54,7 @@ harness!(c20_array_insert, split1(1, |k| docs(1 + k, |d| {
     kani::cover!(i == i32::MAX, "i32::MAX handled");
     core::mem::forget(buf);
 })));
-harness!(c20_keypath, split1(1, |k| docs(1 + k, |d| {
-    let (i, j): (i32, i32) = (kani::any(), kani::any());
-    let (p, q) = (KeyPath::Index(i), KeyPath::Index(j));
-    let path = [&p, &q];
-    let g = get_by_keypath(d.bytes(), path.iter().copied());
-    let mut buf = Vec::new();
-    let r = delete_by_keypath(d.bytes(), path.iter().copied(), &mut buf);
-    kani::cover!(i == i32::MIN && j == i32::MAX, "extremes handled");
-    core::mem::forget(g);
-    core::mem::forget(r);
-    core::mem::forget(buf);
-})));
+
 
 fn select_with(d: &B, ai: ArrayIndex) {
     let jp = JsonPath { paths: vec![Path::Root, Path::ArrayIndices(vec![ai])] };
@@ -110,3 +99,21 @@ fn c20_twin_must_fail() {
     core::mem::forget(buf);
     assert!(bad, "TWIN: deliberately false");
 }
+
+//@ props: UNREACHED-C20
+//@ timeout: 900
+//@ harness: c20_keypath
+//@ desc: get_by_keypath / delete_by_keypath with two fully symbolic i32 indices: no result in 15 min
+//@ fns: get_by_keypath, delete_by_keypath
+harness!(c20_keypath, split1(1, |k| docs(1 + k, |d| {
+    let (i, j): (i32, i32) = (kani::any(), kani::any());
+    let (p, q) = (KeyPath::Index(i), KeyPath::Index(j));
+    let path = [&p, &q];
+    let g = get_by_keypath(d.bytes(), path.iter().copied());
+    let mut buf = Vec::new();
+    let r = delete_by_keypath(d.bytes(), path.iter().copied(), &mut buf);
+    kani::cover!(i == i32::MIN && j == i32::MAX, "extremes handled");
+    core::mem::forget(g);
+    core::mem::forget(r);
+    core::mem::forget(buf);
+})));
